@@ -2,7 +2,7 @@
    and refines the reference semantics (plain finite maps). *)
 From stdpp Require Import gmap list.
 From Coq Require Import NArith Lia.
-From G Require Import Arith Monad Types Inv Raw RawProofs Map MapProofs IterProofs CloneProofs Cost.
+From G Require Import Arith Monad Types Inv Raw RawProofs Map MapProofs IterProofs CloneProofs Cost EntryProofs EntryCost.
 Local Open Scope N_scope.
 
 (* ---------------------------------------------------------------- the reference *)
@@ -18,6 +18,16 @@ Definition yield_e (take : list N) (delta : N) (v : list elem) : list elem :=
   map (bump0 delta) (List.filter (fun e => inb (ek e) take) v).
 Definition pass_res (act : elem -> option elem) (m0 : gmap N elem) (v : list elem) (m : gmap N elem) : Prop :=
   forall k, m !! k = match lookup_list k v with Some e => act e | None => m0 !! k end.
+
+Definition chain_rel (raw : bool) (held : option N) (σ : gmap N (gmap N elem)) (s k : N) (ss : list estep)
+    (r : out) (σ' : gmap N (gmap N elem)) : Prop :=
+  exists m : gmap N elem, σ !! s = Some m /\
+    ((r = OutP PCapOverflow /\ exists m' : gmap N elem, σ' = <[s := m']> σ) \/
+     match ref_chain raw m (start_ent m k held) ss [] with
+     | ROk m' _ o => r = o /\ σ' = <[s := m']> σ
+     | RPanic p m' => r = OutP p /\ σ' = <[s := m']> σ
+     | RBad => False
+     end).
 
 Definition spec_rel (σ : gmap N (gmap N elem)) (o : op) (r : out) (σ' : gmap N (gmap N elem)) : Prop :=
   match o with
@@ -72,6 +82,14 @@ Definition spec_rel (σ : gmap N (gmap N elem)) (o : op) (r : out) (σ' : gmap N
   (* ==: true exactly when both hold the same keys with equal values *)
   | OEq a b => exists ma mb : gmap N elem, σ !! a = Some ma /\ σ !! b = Some mb /\
                  (exists b, r = OutB b /\ (b = true <-> veq ma mb)) /\ σ' = σ
+  (* entry(key) / raw_entry_mut() chains: the reference chain on the plain map decides the
+     outcomes of all steps and the final contents; the chain panics exactly where the reference
+     does (replace_key / replace_entry on a handle without a key: finding D6), with the
+     contents as they were at that point *)
+  | OEntry s k kid ss => chain_rel false (Some kid) σ s k ss r σ'
+  | ORawEntry s variant k ss => chain_rel true None σ s k ss r σ'
+  | ORawGet s variant k => exists m : gmap N elem, σ !! s = Some m /\
+      r = OutOKV ((fun e => (ekid e, ev e)) <$> m !! k) /\ σ' = σ
   | _ => True
   end.
 
@@ -82,6 +100,7 @@ Definition core_op (o : op) : Prop :=
   | OInsert _ _ _ _ | OGet _ _ _ _ | ORemove _ _ _ | OClear _ | OShrinkTo _ _ | ODrop _ => True
   | OIter _ _ _ | ORetain _ _ _ | ODrainFilter _ _ _ _ _ | ODrain _ _ _ | OIntoIter _ _ => True
   | OClone _ _ | OCloneFrom _ _ | OEq _ _ => True
+  | OEntry _ _ _ _ | ORawEntry _ _ _ _ | ORawGet _ _ _ => True
   | OReserve _ n | OTryReserve _ n => n <= usize_max
   | _ => False
   end.
@@ -424,6 +443,47 @@ Proof.
     + intros j m. unfold del_slot, store. cbn [w_maps]. intros H. apply lookup_delete_Some in H as [Hne H].
       rewrite lookup_insert_ne in H by congruence. eapply HW; eauto.
     + rewrite Eop. cbn [spec_rel]. split; [reflexivity|]. rewrite wabs_delete, wabs_store. apply delete_insert_delete.
+  - (* OEntry *)
+    apply wres_rmap. destruct (w_maps w !! s) as [ms|] eqn:Hs; [|apply with_slot_gen_missing; exact Hs].
+    pose proof (HW s ms Hs) as HI.
+    apply with_slot_gen_spec with (ms := ms); [exact Hs|]. intros _.
+    eapply wp_conseq; [apply (map_entry_spec c k kid steps); exact HI| |]; cbn [load s_rt].
+    + intros outs s1 (HI1 & a' & Hch). unfold step_post. split; [apply WInv_store; assumption|].
+      rewrite Eop. cbn [spec_rel]. exists (rt_abs (m_rt ms)). split; [apply wabs_lookup; exact Hs|]. right.
+      rewrite Hch. split; [reflexivity|apply wabs_store].
+    + intros p s1 (HI1 & Hp). destruct Hp as [->|[->|[-> Hch]]].
+      * right. split; [reflexivity|apply WInv_store; assumption].
+      * left. split; [discriminate|]. unfold step_post. split; [apply WInv_store; assumption|].
+        rewrite Eop. cbn [spec_rel]. exists (rt_abs (m_rt ms)). split; [apply wabs_lookup; exact Hs|]. left.
+        split; [reflexivity|]. eexists. apply wabs_store.
+      * left. split; [discriminate|]. unfold step_post. split; [apply WInv_store; assumption|].
+        rewrite Eop. cbn [spec_rel]. exists (rt_abs (m_rt ms)). split; [apply wabs_lookup; exact Hs|]. right.
+        rewrite Hch. split; [reflexivity|apply wabs_store].
+  - (* ORawEntry *)
+    apply wres_rmap. destruct (w_maps w !! s) as [ms|] eqn:Hs; [|apply with_slot_gen_missing; exact Hs].
+    pose proof (HW s ms Hs) as HI.
+    apply with_slot_gen_spec with (ms := ms); [exact Hs|]. intros _.
+    eapply wp_conseq; [apply (map_raw_entry_spec c variant k steps); exact HI| |]; cbn [load s_rt].
+    + intros outs s1 (HI1 & a' & Hch). unfold step_post. split; [apply WInv_store; assumption|].
+      rewrite Eop. cbn [spec_rel]. exists (rt_abs (m_rt ms)). split; [apply wabs_lookup; exact Hs|]. right.
+      rewrite Hch. split; [reflexivity|apply wabs_store].
+    + intros p s1 (HI1 & Hp). destruct Hp as [->|[->|[-> Hch]]].
+      * right. split; [reflexivity|apply WInv_store; assumption].
+      * left. split; [discriminate|]. unfold step_post. split; [apply WInv_store; assumption|].
+        rewrite Eop. cbn [spec_rel]. exists (rt_abs (m_rt ms)). split; [apply wabs_lookup; exact Hs|]. left.
+        split; [reflexivity|]. eexists. apply wabs_store.
+      * left. split; [discriminate|]. unfold step_post. split; [apply WInv_store; assumption|].
+        rewrite Eop. cbn [spec_rel]. exists (rt_abs (m_rt ms)). split; [apply wabs_lookup; exact Hs|]. right.
+        rewrite Hch. split; [reflexivity|apply wabs_store].
+  - (* ORawGet *)
+    destruct (w_maps w !! s) as [ms|] eqn:Hs; [|apply with_slot_gen_missing; exact Hs].
+    pose proof (HW s ms Hs) as HI.
+    apply with_slot_gen_spec with (ms := ms); [exact Hs|]. intros _.
+    eapply wp_conseq; [apply (map_raw_get_spec c variant k); exact HI| |]; cbn [load s_rt].
+    + intros o s1 (Hs1 & ->). unfold step_post. split; [apply WInv_store; [exact HW|rewrite Hs1; exact HI]|].
+      rewrite Eop. cbn [spec_rel]. exists (rt_abs (m_rt ms)). split; [apply wabs_lookup; exact Hs|].
+      split; [reflexivity|]. apply store_same; assumption.
+    + intros p s1 (Hs1 & ->). right. split; [reflexivity|]. apply WInv_store; [exact HW|rewrite Hs1; exact HI].
 Qed.
 
 (* ------------------------------------------------------------------ without a fuse, no user panic *)
@@ -484,6 +544,9 @@ Proof.
     destruct (w_maps w !! b) as [mb|]; [|exact I]. apply wnf_rmap. apply with_slot_gen_nf; [|exact Hf]. apply nf_map_equal.
   - pose proof (with_slot_gen_nf false w s (t_on t, t_tomb t) (t_perm t, t_qperm t) map_drop nf_map_drop Hf) as H.
     unfold with_slot. destruct (with_slot_gen false w s (t_on t, t_tomb t) (t_perm t, t_qperm t) map_drop); exact H.
+  - apply wnf_rmap. apply with_slot_gen_nf; [|exact Hf]. apply (nf_of_cost _ _ (cost_map_entry c k kid steps)).
+  - apply wnf_rmap. apply with_slot_gen_nf; [|exact Hf]. apply (nf_of_cost _ _ (cost_map_raw_entry c variant k steps)).
+  - apply with_slot_gen_nf; [|exact Hf]. apply (nf_of_cost _ _ (cost_map_raw_get variant k)).
 Qed.
 
 (* ------------------------------------------------------------------ histories *)
